@@ -38,7 +38,7 @@ class SyncBBSpec(netx.Spec):
     def check_state(self, world, event, report):
         if world.exception is not None:
             ev, et, msg, where = world.exception
-            report(f"C02|handler-raised|{et}|{where[-1]}|{self.feats()}", f"DCOP {self.spec}: event {ev} raised {et}: {msg} at {where}")
+            report(f"C02|handler-raised|{et}|{netx.site(where)}|{self.feats()}", f"DCOP {self.spec}: event {ev} raised {et}: {msg} at {where}")
 
     def check_end(self, world, report):
         if world.exception is not None:
